@@ -22,7 +22,7 @@ pub fn meta() -> Meta {
             "power-on values are the documented ones: registers 0, micro-address 0, instruction register 0x02, no pending writes/interrupt/wait, ALU latch 0, outputs/MICR/UCR 0, inputs 0, timer off with dividers 0, board outputs 0 V, DAICR 0, fan 0, UIO directions input",
             "MISR, USR, UART data and the board's status/interrupt-status bits are not named by C07 and not asserted",
         ],
-        floors: vec![("histories", 500), ("prefix_resets_checked", 50_000), ("loads_compared", 5_000), ("lockstep_cycles", 1_000_000), ("resets_with_dirty_board_outputs", 200), ("resets_with_dirty_sequencer", 10_000), ("resets_from_halted", 1_000)],
+        floors: vec![("histories", 500), ("prefix_resets_checked", 50_000), ("loads_compared", 5_000), ("loads_compared_in_assembly_mode", 1_000), ("history_load_limits_checked", 2_000), ("lockstep_cycles", 1_000_000), ("resets_with_dirty_board_outputs", 200), ("resets_with_dirty_sequencer", 10_000), ("resets_from_halted", 1_000)],
     }
 }
 
@@ -306,7 +306,25 @@ fn run_history(h: &History, quick: bool, rep: &mut Report) -> Option<(V, usize)>
     let mut rng = Rng::new(h.seed);
     verif::set_fuel(Some(50_000_000));
     for (i, op) in h.ops.iter().enumerate() {
+        let (ss_before, ps_before) = (m.stacksize(), m.programsize());
         apply(&mut m, op, h);
+        if let Op::Load(k) = op {
+            // the program's limits are applied; NOSET keeps the previous setting
+            let (img, ss, ps) = &h.programs[*k];
+            let exp_ss = if *ss == 5 { ss_before } else { ss_of(*ss) };
+            let exp_ps = match *ps {
+                -2 => ps_before,
+                -1 => Programsize::Size(img.len() as u8),
+                n => Programsize::Size(n as u8),
+            };
+            rep.inc("history_load_limits_checked");
+            if m.stacksize() != exp_ss {
+                return Some((("C07:load:stacksize".into(), format!("stack size after load {:?}, expected {:?} (program says index {}, before {:?})", m.stacksize(), exp_ss, ss, ss_before)), i));
+            }
+            if m.programsize() != exp_ps {
+                return Some((("C07:load:programsize".into(), format!("program size after load {:?}, expected {:?} (program says {}, before {:?})", m.programsize(), exp_ps, ps, ps_before)), i));
+            }
+        }
         // every prefix: each kind of reset on a clone
         let snap = m.verif_snapshot();
         let dirty_board = *m.bus().board().digital_output1() != 0 || m.bus().board().daicr().bits() != 0 || m.bus().board().uio_dir() != &[false; 3];
@@ -361,8 +379,12 @@ fn run_history(h: &History, quick: bool, rep: &mut Report) -> Option<(V, usize)>
             }
             // behavioural: cycle for cycle as on a newly created machine
             let mut fresh = Machine::new_with_program(MachineConfig::default(), bytecode(&h.follow, ss_of(ss), ps_of(ps)));
+            let asm_mode = rng.chance(1, 3);
+            if asm_mode {
+                rep.inc("loads_compared_in_assembly_mode");
+            }
             for mm in [&mut ml, &mut fresh] {
-                mm.set_step_mode(StepMode::Real);
+                mm.set_step_mode(if asm_mode { StepMode::Assembly } else { StepMode::Real });
                 mm.set_input_fc(h.follow_inputs[0]);
                 mm.set_input_fd(h.follow_inputs[1]);
                 mm.set_input_fe(h.follow_inputs[2]);
